@@ -86,10 +86,10 @@ Proof.
 Qed.
 (* ---- the program transformer itself (Model/FutTransform.v: every per-atom decision is the REGENERATED Ctx.decide; the model's output is compared
    with transformers.transform statement by statement on every run) ---- *)
-(* a constraint in the initial, always or dynamic part is accepted whatever atoms it mentions; the depth under which the transformer files it is
+(* a constraint (over atoms and the two markers; theory atoms have no counterpart in the window model) in the initial, always or dynamic part is accepted whatever atoms it mentions; the depth under which the transformer files it is
    the look-ahead of the window model; the ground instance of its temporary copy (with `__final(__u)`, parameters (t,u) = (k,s)) means the
    window instance `ginst s k true`, that of its permanent copy means `ginst s k false` - here-and-there and classically, for all interpretations *)
-Theorem C02_transformer_emits_the_window_copies : forall (A : Type) (r : frule A), fh A r = FCons A -> is_final (fp A r) = false ->
+Theorem C02_transformer_emits_the_window_copies : forall (A : Type) (r : frule A), fh A r = FCons A -> is_final (fp A r) = false -> tel_free A (fb A r) ->
   exists t, transform_rule A r = Some t /\ t_shift A t = Window.lookahead A (Window.cb A (to_crule A r)) /\ t_fut A t = [] /\
     forall (H T : interp (gatom A)) (s k : nat),
       (hsat _ H T (ground_cons A s (Z.of_nat k) (Z.of_nat s) (tmp_of A (t_rule A t))) = hsat _ H T (Window.ginst A s k true (to_crule A r)) /\
@@ -118,6 +118,7 @@ Theorem C02_future_atoms_only_in_heads_of_normal_rules : forall (A : Type) (r : 
   | FDisj _ l => qh A (t_rule A t) = QHDisj A l /\ t_fut A t = []
   | FChoice _ l => qh A (t_rule A t) = QHChoice A l /\ t_fut A t = []
   | FCons _ => qh A (t_rule A t) = QHCons A /\ t_fut A t = []
+  | FTelHead _ => qh A (t_rule A t) = QHAux A 0 /\ t_fut A t = []
   end.
 Proof. exact accepted_rule_shape. Qed.
 (* future heads, concretely (Proofs/FutureHeads.v): for the rewritten program of the transformer model - `__future_p(n, __t+n) :- body` in the part of
